@@ -152,6 +152,7 @@ pub(crate) const K_CLEARNEW: u8 = 25; // clear_new_cluster(cluster number)
 pub(crate) const K_FLUSH_REFCOUNT: u8 = 26; // flush_refcount()
 pub(crate) const K_FLUSH_MAPPING: u8 = 27; // flush_meta_generic(l1, l2cache, ..) from flush_meta
 pub(crate) const K_TRYFROM: u8 = 28; // try_allocate_from(host, count)
+pub(crate) const K_COMMIT_HEADER: u8 = 29; // commit_header (off = l1 offset, len = l1 entries in the header)
 pub(crate) const K_TRYALLOC: u8 = 14; // try_alloc_from_rb_slice (off,len = granted run; len 0 = None)
 
 const NOREC: Rec = Rec { kind: K_NONE, entry: 0, off: 0, len: 0, buf_start: 0, flags: 0 };
@@ -398,6 +399,7 @@ pub(crate) struct KEnv {
     pub backing_file: Option<KBacking>,
     pub passes_left: Cell<usize>,
     pub l1_shim: u8,
+    pub header: KLock<crate::meta::Qcow2Header>,
 }
 
 /// stand-in for the boxed backing device
@@ -434,6 +436,7 @@ impl KEnv {
             backing_file: None,
             passes_left: Cell::new(0),
             l1_shim: 0,
+            header: KLock::new(crate::meta::verif_header::mk_header(16, 4, 0, 1, 1, false)),
         }
     }
 
@@ -733,6 +736,25 @@ impl KEnv {
         let start = (host & !(cs - 1)) + skip * cs;
         kani::assume(start + (n as u64) * cs <= end);
         Ok(Some((start, n)))
+    }
+    // ---- L1 header-entry extension
+    pub fn k_commit_header<F: FnOnce(&mut crate::meta::Qcow2Header)>(&self, h: &mut RefMut<'_, crate::meta::Qcow2Header>, _rollback: F) -> Qcow2Result<()> {
+        self.rec(Rec { kind: K_COMMIT_HEADER, off: h.l1_table_offset(), len: h.l1_table_entries(), ..NOREC });
+        if self.fail_write.get() {
+            // contract of commit_header (decided on its own lifted body, segment H0): on a failed
+            // write the rollback closure has run and the error is returned
+            _rollback(&mut **h);
+            return Err(crate::error::Qcow2Error::from_desc(String::new()));
+        }
+        Ok(())
+    }
+    pub fn k_flush_mapping(&self, _l1: &crate::meta::L1Table) -> KResult<()> {
+        self.rec(Rec { kind: K_FLUSH_MAPPING, ..NOREC });
+        Ok(())
+    }
+    pub fn k_flush_top_table_l1(&self, _l1: &crate::meta::L1Table) -> KResult<()> {
+        self.rec(Rec { kind: K_BACKEND_WRITE, ..NOREC });
+        Ok(())
     }
     /// the backend's fallocate: fails or succeeds (environment decides)
     pub fn k_file_fallocate(&self, off: u64, len: usize, flags: u32) -> KResult<()> {
